@@ -37,8 +37,10 @@ func (c *Collection) Condense(treatErrorAsTerminal bool) (Provider, error) {
 	{
 		contents := make([]*provider, len(c.contents))
 		copy(contents, c.contents)
-		contents[len(contents)-1] = contents[len(contents)-1].copy()
 		c = &Collection{name: c.name, contents: contents}
+		// the last function is the one that Bind will treat as final
+		c.reorderNonFinal()
+		contents[len(contents)-1] = contents[len(contents)-1].copy()
 	}
 	last := c.contents[len(c.contents)-1]
 	last.required = true
